@@ -14,10 +14,10 @@ import random
 
 from .. import common, identlib
 from ..gen import cfggen, edits
-from ..translate import hashflags, hashsrc, walksrc
+from ..translate import hashflags, hashsrc, sealsrc, walksrc
 
 PROP = "C14"
-MODULES = ["XpmVerif.Properties.C14", "XpmVerif.Properties.HashSrc", "XpmVerif.Properties.WalkSrc"]
+MODULES = ["XpmVerif.Properties.C14", "XpmVerif.Properties.HashSrc", "XpmVerif.Properties.WalkSrc", "XpmVerif.Properties.C14Src"]
 
 
 def prove(ctx):
@@ -27,6 +27,10 @@ def prove(ctx):
     msgs.append(walksrc.generate(common.REPO, common.LEAN))
     ctx.notes.append(f"translator(walksrc): {msgs[2][1]}")
     ctx.count("translator", "walksrc:" + ("translated" if msgs[2][1].startswith("translated") else "fallback"))
+    # the guards of the mutators (set / set_meta / add_pretasks and their entry points, Sealer, identifier caches) as data
+    msgs.append(sealsrc.generate(common.REPO, common.LEAN))
+    ctx.notes.append(f"translator(sealsrc): {msgs[3][1]}")
+    ctx.count("translator", "sealsrc:" + ("translated" if msgs[3][1].startswith("translated") else "fallback"))
     common.check_proofs(ctx, MODULES, translate_msgs=msgs)
 
 
